@@ -18,7 +18,8 @@ func init() {
 	fw.Register(&fw.Prop{
 		ID: "C14",
 		Rule: "differential monitor of Relu / LeakyRelu / Sigmoid / Tanh / Softmax forward values: every input shape of rank 0..R (sizes 1..3; R = 4 in quick, 5 in thorough), Softmax for EVERY Dim 0..rank-1 and the nil config, LeakyRelu slopes {nil config, 0, 0.01, 0.5, 1, 2, -0.3}, input value classes {unique reals, exact 0 / -0 mixed in, +-700 and other large magnitudes with different fibres at opposite extremes, +-1e-300}; one activation object is reused for two different inputs. Each element is compared with the defining scalar function (Softmax: e^x / sum e^x over the fibre along Dim computed with explicit index arithmetic); shape preserved; Softmax >= 0 and every fibre sums to 1 +- 1e-12. " +
-			"Non-trivial: >= 2 elements; distinct = (activation, config, shape, value class). Later additions: one long dimension (127..2049) with Softmax along it or across it; configs overwritten right after construction.",
+			"Non-trivial: >= 2 elements; distinct = (activation, config, shape, value class). Later additions: one long dimension (127..2049) with Softmax along it or across it; configs overwritten right after construction." +
+			" Round 4: every third activation object is first fed a batch holding +-Inf / NaN (outcome ignored) before the finite batches that are decided; Forward must leave its argument's tracking state and elements unchanged.",
 		Assumptions: []string{"values compared within 1e-12 relative (+1e-300 absolute)"},
 		FloorQuick:  10000, FloorThor: 40000,
 		Run: runC14,
@@ -151,6 +152,9 @@ func runC14(c *fw.Ctx) {
 						return
 					}
 					for round := 0; round < 2; round++ { // the same activation object is used twice
+						if (k.Index+round)%3 == 0 { // ... and in between it saw a batch of the same shape that is not finite (a diverged step)
+							actPoison(k, obj, shape)
+						}
 						x, cname := actValues(k, (class+round)%4, shape, sp.in.Dim)
 						k.Case = fcase{In: sp.in, Ops: []*ref.T{x}, Tag: sp.name + "/" + cname}
 						if len(x.Data) >= 2 {
@@ -160,8 +164,13 @@ func runC14(c *fw.Ctx) {
 						want, _ := ref.Apply(sp.in, []*ref.T{x})
 						rx := rt.MustLeaf(x, k.Rng.Intn(2) == 0)
 						var y tensor.Tensor
+						guard := argGuard(rx)
 						if p := call(func() { y, err = obj.Forward(rx) }); p != nil || err != nil || y == nil {
 							k.Failf("%s on shape %v [%s]: panic=%v err=%v", sp.name, shape, cname, p, err)
+							return
+						}
+						if msg := guard(); msg != "" {
+							k.Failf("%s.Forward on shape %v changed its input tensor: %s", sp.name, shape, msg)
 							return
 						}
 						if e := rt.Compare(y, want, 1e-300, 1e-12, nil, 0); e != nil {
@@ -190,6 +199,21 @@ func runC14(c *fw.Ctx) {
 			}
 		}
 	}
+}
+
+// actPoison feeds the activation object a batch of the given shape holding +-Inf and NaN; whatever it
+// answers (values, an error, even a panic) is outside the statement and is ignored. What is decided is
+// that a LATER finite batch on the same object is still evaluated correctly.
+func actPoison(k *fw.K, obj interface {
+	Forward(...tensor.Tensor) (tensor.Tensor, error)
+}, shape []int) {
+	x := ref.Zeros(shape)
+	for i := range x.Data {
+		x.Data[i] = []float64{math.Inf(1), math.Inf(-1), math.NaN(), 1, -2, 1e308}[k.Rng.Intn(6)]
+	}
+	x.Data[k.Rng.Intn(len(x.Data))] = []float64{math.Inf(1), math.Inf(-1), math.NaN()}[k.Rng.Intn(3)]
+	k.Count("non_finite_batches_fed_before_a_finite_one", 1)
+	call(func() { _, _ = obj.Forward(rt.MustLeaf(x, k.Rng.Intn(2) == 0)) })
 }
 
 func leakyOf(m float64) (interface {
